@@ -63,3 +63,8 @@ def assign_attr_from_defs(obj: AvpGenerator, avp_list: list[Avp]):
 
         elif hasattr(obj, "_additional_avps"):
             getattr(obj, "_additional_avps").append(avp)
+
+        else:
+            # a grouped AVP class that declares no room for AVPs it does not
+            # know carries them over all the same
+            setattr(obj, "additional_avps", [avp])
